@@ -304,6 +304,7 @@ impl EGen {
         let mut ops = Vec::new();
         let cap = match self.profile.as_str() {
             "overfull" => (self.step as usize) * 3 + 2,
+            "unusual" => (self.step as usize * 2).min(14),
             "empty" => 2,
             _ => (self.step as usize).min(12),
         };
@@ -341,7 +342,8 @@ impl EGen {
                     if offgrid && tick > 1 && self.chance(0.4) { p += self.rng.gen_range(1..tick); }
                     Some(p)
                 };
-                let v = if self.chance(0.4) { None } else { Some(self.rng.gen_range(1..12)) };
+                let lo = if self.profile == "unusual" { 0 } else { 1 };
+                let v = if self.chance(0.4) { None } else { Some(self.rng.gen_range(lo..12)) };
                 ops.push(EOp::QModify(a, id, p, v));
             } else if self.profile == "toggle" || self.chance(0.3) {
                 self.trading = !self.trading;
